@@ -136,6 +136,10 @@ func (f *DocumentTitleMatch) processPotentialTitle(title string) {
 		return
 	}
 
+	// The title itself is always a potential title (as in boilerpipe's
+	// DocumentTitleMatchClassifier); the patterns below only add parts of it.
+	f.potentialTitles[title] = struct{}{}
+
 	for _, rx := range rxDtmLongestPartPatterns {
 		if p := f.getLongestPart(title, rx); p != "" {
 			f.potentialTitles[p] = struct{}{}
